@@ -7,9 +7,10 @@ in `tubeEnd` and in the final flush) are `Int` with Go's truncated division (`In
 `Int.tmod`); query/target positions, diagonal indices of common k-mers and slot numbers are `Nat`.
 Hits are collected in push order; the morass only re-orders them.
 
-`Rule` records the two places where the retirement logic of the source is regenerated as a fact
-(`Biogo.Generated.FilterFacts`): what `tubeEnd` subtracts from the diagonal index, and where the
-final flush starts.
+`Rule` records the places where the retirement logic of the source is regenerated as a fact
+(`Biogo.Generated.FilterFacts`): what `tubeEnd` subtracts from the diagonal index, where the
+final flush starts, and whether the ticker follows the query position delivered by the callback
+or counts callbacks.
 -/
 import Biogo.Model.Kmer
 
@@ -32,10 +33,21 @@ structure Rule where
   /-- the final flush starts at the tube of `diagIndex(Tlen-1, Qlen-k) - maxError` (true: the first
       tube no tick has retired) or of `diagIndex(Tlen-1, Qlen-1) - tubeWidth` (false) -/
   flushFromLastTick : Bool
+  /-- the ticker: `ticker` is the number of query positions after which the next tube ends, and
+      `tick(passed)` — called with the position of every callback and with `Qlen-k+1` after the scan —
+      retires every tube that has ended (true); or `ticker` is a countdown decremented once per
+      *callback*, the tube of the callback's position being retired when it reaches 0 (false: a
+      k-mer holding a letter outside the alphabet gets no callback, so the countdown runs late) -/
+  tickByPosition : Bool := true
+  /-- the tube list between two calls of `Filter` on one `*Filter`: `f.tubes = make([]tubeState,
+      maxActiveTubes)` before every scan and `f.tubes = nil` after it (true); or allocated only when
+      `len(f.tubes) != maxActiveTubes` and kept (false — the variant in which a scan starts from
+      whatever the previous scan left in the tubes) -/
+  remakeTubes : Bool := true
   deriving Repr, DecidableEq
 
 /-- the pinned tree -/
-def Rule.pinned : Rule := { retireSubMaxError := false, flushFromLastTick := false }
+def Rule.pinned : Rule := { retireSubMaxError := false, flushFromLastTick := false, tickByPosition := false }
 
 structure Tube where
   qLo : Nat
@@ -143,16 +155,39 @@ def tubeFlush (c : Cfg) (s : St) (ti : Nat) : St :=
 /-- loop state of the callback in `Filter`: tubes, hits and the ticker -/
 structure Loop where
   st : St
-  ticker : Int
+  ticker : Nat
   deriving Repr
+
+/-- `for ; ticker <= passed; ticker += f.tubeOffset { f.tubeEnd(ticker - 1) }` with `fuel`
+    iterations left (for `tubeOffset ≥ 1` the loop ends within `passed + 1 - ticker` iterations;
+    `tubeOffset = 0` never reaches this loop: `Filter` has panicked before) -/
+def tickLoop (c : Cfg) (passed : Nat) : Nat → St → Nat → Loop
+  | 0, st, ticker => { st, ticker }
+  | fuel + 1, st, ticker =>
+    if ticker ≤ passed then tickLoop c passed fuel (tubeEnd c st (ticker - 1)) (ticker + c.off)
+    else { st, ticker }
+
+/-- `tick(passed)`: retire the tubes that have ended once `passed` query positions lie behind -/
+def tick (c : Cfg) (l : Loop) (passed : Nat) : Loop := tickLoop c passed (passed + 1 - l.ticker) l.st l.ticker
+
+/-- the loop over the target positions of one k-mer: `commonKmer(ki.PosAt(i), position)` -/
+def kmers (c : Cfg) (l : Loop) (position : Nat) (ts : List Nat) : Loop :=
+  { l with st := ts.foldl (fun s t => commonKmer c s t position) l.st }
+
+/-- the callback of the first wave's code, whose ticker is a countdown of *callbacks*:
+    `if ticker--; ticker == 0 { tubeEnd(position); ticker = f.tubeOffset }` after the k-mers (the
+    ticker starts at `tubeWidth ≥ 1` and is reset to `tubeOffset ≥ 1`, so it never passes below 0) -/
+def onKmerCount (c : Cfg) (l : Loop) (position : Nat) (ts : List Nat) : Loop :=
+  let st := (kmers c l position ts).st
+  let ticker := l.ticker - 1
+  if ticker = 0 then { st := tubeEnd c st position, ticker := c.off }
+  else { st, ticker }
 
 /-- the callback for one k-mer of the query at `position`, `ts` = its positions in the target in
     index order -/
 def onKmer (c : Cfg) (l : Loop) (position : Nat) (ts : List Nat) : Loop :=
-  let st := ts.foldl (fun s t => commonKmer c s t position) l.st
-  let ticker := l.ticker - 1
-  if ticker = 0 then { st := tubeEnd c st position, ticker := c.off }
-  else { st, ticker }
+  if c.rule.tickByPosition then kmers c (tick c l position) position ts
+  else onKmerCount c l position ts
 
 /-- positions of `kmer` in the target, read as the callback does (`FingerAt`, `PosAt`) -/
 def targetPositions (ix : Biogo.Kmer.Index) (kmer : Nat) : List Nat :=
@@ -194,22 +229,68 @@ def mkCfg (rule : Rule) (k tlen : Nat) (p : Params) (selfAlign complement : Bool
     selfAlign, complement,
     cap := (tlen + (p.tubeOffset + p.maxError) - 1) / p.tubeOffset + 1 }
 
-/-- `Filter(query, selfAlign, complement, morass)`: the hits in push order -/
+/-- the body of `Filter` from the scan on, started on the tube list `tubes0`: the result (hits in
+    push order) and the tube list it leaves in `f.tubes` if nothing resets it -/
+def scanFrom (rule : Rule) (lk : Lookup) (ix : Biogo.Kmer.Index) (p : Params) (query : List UInt8)
+    (selfAlign complement : Bool) (tubes0 : Array Tube) : Except FErr (List Hit) × Array Tube :=
+  let tubeWidth := p.tubeOffset + p.maxError
+  let c := mkCfg rule ix.k ix.seq.length p selfAlign complement
+  let it := Biogo.Kmer.forEachKmer lk ix.k query 0 query.length
+  let l0 : Loop := { st := { tubes := tubes0, hits := [] }, ticker := tubeWidth }
+  let l := it.calls.foldl (fun l call => onKmer c l call.1 (targetPositions ix call.2)) l0
+  if it.err then (.error .iter, l.st.tubes)
+  else
+    -- `tick(query.Len() - f.k + 1)` (an `int` ≤ 0 retires nothing, like the truncated `Nat`)
+    let l := if rule.tickByPosition then tick c l (query.length + 1 - ix.k) else l
+    let st := tubeEnd c l.st (query.length - 1)
+    let (tubeFrom, tubeTo) := flushRange c query.length
+    let st := flushLoop c ((tubeTo + 1 - tubeFrom).toNat) tubeFrom st
+    (if st.panic then .error .panic else .ok st.hits.reverse, st.tubes)
+
+/-- `Filter(query, selfAlign, complement, morass)` on a fresh tube list: the hits in push order -/
 def filter (rule : Rule) (lk : Lookup) (ix : Biogo.Kmer.Index) (p : Params) (query : List UInt8)
     (selfAlign complement : Bool) : Except FErr (List Hit) :=
-  let tubeWidth := p.tubeOffset + p.maxError
   if p.tubeOffset < p.maxError then .error .offsetLtError
   else if p.tubeOffset = 0 then .error .panic
   else
     let c := mkCfg rule ix.k ix.seq.length p selfAlign complement
-    let it := Biogo.Kmer.forEachKmer lk ix.k query 0 query.length
-    let l0 : Loop := { st := { tubes := Array.replicate c.cap default, hits := [] }, ticker := tubeWidth }
-    let l := it.calls.foldl (fun l call => onKmer c l call.1 (targetPositions ix call.2)) l0
-    if it.err then .error .iter
-    else
-      let st := tubeEnd c l.st (query.length - 1)
-      let (tubeFrom, tubeTo) := flushRange c query.length
-      let st := flushLoop c ((tubeTo + 1 - tubeFrom).toNat) tubeFrom st
-      if st.panic then .error .panic else .ok st.hits.reverse
+    (scanFrom rule lk ix p query selfAlign complement (Array.replicate c.cap default)).1
+
+/-! ### usage histories: one `*Filter`, many calls of `Filter`
+
+What a `*Filter` carries from one call to the next.  `New` sets `ki`, `target`, `minMatch`,
+`maxError`, `tubeOffset`, and nothing assigns them again; `Filter` assigns `selfAlign`, `complement`,
+`morass`, `k`, `minKmersPerHit`, `maxKmerDist` at its head, before any use (regenerated fact
+`Biogo.Generated.FilterFacts.perCallFields`).  What is left is `f.tubes`. -/
+
+/-- the state of a `*Filter` between calls: `f.tubes` (`nil` = empty) -/
+structure FState where
+  tubes : Array Tube := #[]
+  deriving Repr
+
+/-- after `filter.New` -/
+def FState.new : FState := {}
+
+/-- `Filter(query, selfAlign, complement, morass)` on a `*Filter` in state `prev`: the result and the
+    state it leaves.  An error return leaves `f.tubes` as it is at that point (the two parameter
+    errors come before it is touched). -/
+def filterFrom (rule : Rule) (lk : Lookup) (ix : Biogo.Kmer.Index) (p : Params) (prev : FState)
+    (query : List UInt8) (selfAlign complement : Bool) : Except FErr (List Hit) × FState :=
+  if p.tubeOffset < p.maxError then (.error .offsetLtError, prev)
+  else if p.tubeOffset = 0 then (.error .panic, prev)
+  else
+    let c := mkCfg rule ix.k ix.seq.length p selfAlign complement
+    let tubes0 :=
+      if rule.remakeTubes then Array.replicate c.cap default
+      else if prev.tubes.size ≠ c.cap then Array.replicate c.cap default else prev.tubes
+    let r := scanFrom rule lk ix p query selfAlign complement tubes0
+    match r.1 with
+    | .error e => (.error e, { tubes := r.2 })
+    | .ok hs => (.ok hs, { tubes := if rule.remakeTubes then #[] else r.2 })
+
+/-- the state after a history of calls `(query, selfAlign, complement)` on a new `*Filter` -/
+def afterHistory (rule : Rule) (lk : Lookup) (ix : Biogo.Kmer.Index) (p : Params)
+    (calls : List (List UInt8 × Bool × Bool)) : FState :=
+  calls.foldl (fun s call => (filterFrom rule lk ix p s call.1 call.2.1 call.2.2).2) FState.new
 
 end Biogo.Filter
